@@ -365,6 +365,23 @@ def install():
     wrap_unpack("add_thin_pack")
     wrap_unpack("add_pack_data")
 
+    # the update hook is asked about every command before anything else is decided about it: the first
+    # call marks the start of receive-pack's validation of the commands (used to tell a ref that went
+    # stale before validation from one that went stale between validation and application)
+    from dulwich.server import ReceivePackHandler
+    orig_on_update = ReceivePackHandler._on_update
+
+    def on_update(self, ref_name, old_sha, new_sha):
+        try:
+            rec = _rec_for(self.repo.controldir())
+        except Exception:
+            rec = None
+        if rec is not None:
+            rec.log({"p": rec.who(), "op": "validate", "ref": os.fsdecode(ref_name)})
+        return orig_on_update(self, ref_name, old_sha, new_sha)
+    _patched.append((ReceivePackHandler, "_on_update", orig_on_update))
+    ReceivePackHandler._on_update = on_update
+
 
 def uninstall():
     while _patched:
@@ -469,7 +486,16 @@ def wire_push(rec, p, desc, stateless=False):
         if desc["decl"]:
             repo.hooks["update"] = DeclineUpdate(REFNAMES[r - 1] for r in desc["decl"])
         inp = BytesIO(build_request(desc))
-        proto = ReceivableProtocol(inp.read, out.write)
+        waiting = [not stateless and p == 1]        # (explored for the first pusher; the others are the racers)
+
+        def recv(n):
+            # connection-oriented receive-pack: the advertisement has been written, the client's
+            # command list has not been read yet -- another push may complete right here
+            if waiting[0]:
+                waiting[0] = False
+                rec.yp(("commands", p))
+            return inp.read(n)
+        proto = ReceivableProtocol(recv, out.write)
         h = ReceivePackHandler(DictBackend({"/": repo}), ["/"], proto, stateless_rpc=stateless)
         try:
             h.handle()
